@@ -687,3 +687,90 @@ example : (reNonuniform (uniformAxis 0 3 1 false false) false false).map (fun p 
   constructor
   · simp [reNonuniform, nonuniformAxis, uniformAxis, gminOf, Part1.mk?, Part1.wf]
   · simp [reFromGrid, fromGridAxis, uniformAxis]
+
+/-! ## (9) round 4, second part: n-d point location for arbitrary points, list indices (converse),
+the n-d `uniform_partition` front end -/
+
+/-- n-d `index(p)` (the function the driver runs for the `index` and `nd` operations), every number of
+axes: for valid non-degenerate axes and every point of the box the returned multi-index names the
+cell that contains the point in every axis (half-open cells, the last one closed on the right); a
+point outside the box in some axis, or with the wrong number of coordinates, is rejected. -/
+theorem C14.index_nd_correct (P : Part) (hv : ∀ p ∈ P, Valid p ∧ Nondegenerate p) (v : List Rat) :
+    (InBox P v → ∃ ks : List Nat, ndIndex P v = some (ks.map fun (k : Nat) => (k : Int)) ∧ InCells P v ks) ∧
+    (¬ InBox P v → ndIndex P v = none) :=
+  ⟨ndIndex_correct P hv v, ndIndex_outside P v⟩
+
+example : InBox [⟨3, fun i => i * i, 0, 4⟩, ⟨2, fun i => i, -1, 1⟩] [3, 1] ∧
+    InCells [⟨3, fun i => i * i, 0, 4⟩, ⟨2, fun i => i, -1, 1⟩] [3, 1] [2, 1] := by
+  refine ⟨⟨by norm_num, by norm_num, trivial⟩, ⟨by decide, ?_, ?_⟩, ⟨by decide, ?_, ?_⟩, trivial⟩ <;>
+    norm_num [Part1.bdry]
+
+/-- List indices, the converse of `C14.getitem_list`: `partition[[i0, …, ik]]` returns a partition ONLY
+IF the list is non-empty, every entry is in `[-n, n)` and the wrapped cell numbers are strictly
+increasing.  So unsorted and repeated lists are always rejected (the selected nodes would not be
+strictly increasing, which `RectGrid` refuses), for every valid partition; together with
+`C14.getitem_list` this characterises the accepted lists completely. -/
+theorem C14.getitem_list_only_sorted (P : Part1) (hv : Valid P) (l : List Int) (Q : Part1)
+    (h : P.getList l = some Q) :
+    ∃ first rest, l.mapM (wrapIndex P.n) = some (first :: rest) ∧ (first :: rest).Pairwise (· < ·) :=
+  getList_some_sorted P hv l Q h
+
+/-- a repeated entry is rejected: `p[[1, 1]]` on three cells -/
+example : (⟨3, fun i => i * i, 0, 4⟩ : Part1).getList [1, 1] = none := by
+  have hv : Valid ⟨3, fun i => i * i, 0, 4⟩ := by
+    refine ⟨by decide, ?_, by norm_num, by norm_num⟩
+    intro i hi
+    have hi' : i + 1 < 3 := hi
+    have : i = 0 ∨ i = 1 := by omega
+    rcases this with rfl | rfl <;> norm_num
+  cases hq : (⟨3, fun i => i * i, 0, 4⟩ : Part1).getList [1, 1] with
+  | none => rfl
+  | some Q =>
+    obtain ⟨first, rest, h1, h2⟩ := C14.getitem_list_only_sorted _ hv [1, 1] Q hq
+    have : first :: rest = [1, 1] := by
+      have h3 : ([1, 1] : List Int).mapM (wrapIndex 3) = some [1, 1] := by decide
+      rw [show (⟨3, fun i => (i : Rat) * i, 0, 4⟩ : Part1).n = 3 from rfl, h3] at h1
+      exact (Option.some.inj h1).symm
+    rw [this] at h2
+    simp at h2
+
+/-- The n-d front end `uniform_partition(min_pt, max_pt, shape, cell_sides, nodes_on_bdry)` as the driver
+runs it (`uniformPartition`: length checks, `normalized_nodes_on_bdry`, the completion loop, the second
+normalisation inside `uniform_grid_fromintv`, the shape check, `uniform_partition_fromintv`), any
+number of axes: if the raw `nodes_on_bdry` value is read as the per-axis flags `(bl_j, br_j)` and the
+request of every axis completes to `(lo_j, hi_j, n_j)` (by `C14.uniform_spec_agree` every consistent
+choice of three or four of the parameters does), the result is the partition whose axes are the 1-d
+uniform partitions `uniformAxis lo_j hi_j n_j bl_j br_j` — the object `C14.cell_volume_uniform`,
+`C14.uniform_side_times_count` and `C14.constructors_agree` speak about. -/
+theorem C14.uniform_partition_nd (t : Tol) (eps : Rat) (AR : List (UAxis × Req)) (f : Flags)
+    (hf : f.loopFlags AR.length = some (AR.map fun x => (x.1.bl, x.1.br)))
+    (hreq : ∀ x ∈ AR, completeAxis t eps x.2.xmin x.2.xmax x.2.n x.2.dx x.1.bl x.1.br =
+      some (x.1.lo, x.1.hi, (x.1.n : Int)))
+    (h : ∀ x ∈ AR, x.1.lo < x.1.hi ∧ 1 ≤ x.1.n) :
+    uniformPartition t eps (AR.map (·.2.xmin)) (AR.map (·.2.xmax)) (AR.map (·.2.n)) (AR.map (·.2.dx)) f =
+      some (AR.map fun x => x.1.part) :=
+  uniformPartition_axes t eps AR f hf hreq h
+
+/-- two axes, one given by `(min, n, side)`, one by `(min, max, side)`; flags `[True, (False, True)]` -/
+example : uniformPartition Tol.numpy (1 / 100000) [some 0, some (-1)] [none, some (7 / 4)] [some 4, none]
+      [some (1 / 2), some (1 / 2)] (Flags.seq [.b true, .pair false true]) =
+    some [uniformAxis 0 (3 / 2) 4 true true, uniformAxis (-1) (7 / 4) 6 false true] := by
+  have := C14.uniform_partition_nd Tol.numpy (1 / 100000)
+    [(⟨0, 3 / 2, 4, true, true⟩, ⟨some 0, none, some 4, some (1 / 2)⟩),
+     (⟨-1, 7 / 4, 6, false, true⟩, ⟨some (-1), some (7 / 4), none, some (1 / 2)⟩)]
+    (Flags.seq [.b true, .pair false true]) rfl
+    (by
+      intro x hx
+      simp only [List.mem_cons, List.not_mem_nil, or_false] at hx
+      rcases hx with rfl | rfl
+      · exact (C14.uniform_spec_agree Tol.numpy (1 / 100000) (by norm_num [Tol.numpy])
+          (by norm_num [Tol.numpy]) (by norm_num) 0 (3 / 2) (1 / 2) 4 true true (by norm_num)
+          (by norm_num [halfCount])).2.1
+      · exact (C14.uniform_spec_agree Tol.numpy (1 / 100000) (by norm_num [Tol.numpy])
+          (by norm_num [Tol.numpy]) (by norm_num) (-1) (7 / 4) (1 / 2) 6 false true (by norm_num)
+          (by norm_num [halfCount])).2.2.2.1)
+    (by
+      intro x hx
+      simp only [List.mem_cons, List.not_mem_nil, or_false] at hx
+      rcases hx with rfl | rfl <;> norm_num)
+  simpa [UAxis.part] using this
